@@ -5,11 +5,14 @@
   every volume state, every bitmap table (any number of pages, any dirty set, any page pointers), every clock and
   every fault schedule — hence for every prefix of its write sequence, i.e. every interruption point.
   First sentence (each write lands on a free block, the object's own blocks, its directories' metadata or a sibling's
-  chain link): decided on the real code by classifying every device write of every operation against the
-  independent decoder's ownership map (tools/props/C18.py); the model is tied to those writes trace-exactly, but a
-  whole-filesystem ownership invariant is not proved in Lean.  (MANIFEST: partial.)
+  chain link): proved here for `adfRemoveEntry` (volumes without directory cache) in its sharpest form — the only
+  block written besides the bitmap is the directory or the chain predecessor, with exactly one word replaced — for
+  every disk content and fault schedule.  For the other operations it is decided on the real code by classifying every
+  device write of every operation against the independent decoder's ownership map (tools/props/C18.py), the model being
+  tied to those writes trace-exactly.  (MANIFEST: partial.)
 -/
 import AdfProofs.BitmapOrder
+import AdfProofs.WriteSetLemmas
 namespace Adf.C18
 open Adf
 
@@ -99,5 +102,22 @@ example (c : Cfg) (v : Nat) (r : Blk) (hr : BlkWF r) (pg : Blk) :
   · intro e he; simp at he; subst he; exact ⟨_, _, _, rfl⟩
   · exact Blk.w_setW_same _ _ _ (by rw [hr.1]; decide) (by decide)
   · intro e he; simp at he; subst he; rfl
+
+/-- **first sentence of C18 for delete** (volumes without directory cache): for EVERY disk content, state and fault
+    schedule, the device writes of `adfRemoveEntry` are: none; or exactly one block — the directory or the entry's chain
+    predecessor — rewritten as it is on the disk with ONE word replaced (its hash slot / its chain link) and the checksum
+    recomputed, followed, if that write succeeded, by a bitmap update in its fixed order.  No header, extension or data
+    block of any other file is written at any interruption point. -/
+theorem C18_remove_write_set (c : Cfg) (v pSect : Nat) (name : Bytes) (s : St)
+    (hnc : isDIRCACHE (c.vol v).dosType = false) :
+    Post AnyFault c (removeEntry v pSect name) s (fun _ s' =>
+      ∃ W, writesOf s'.trace = W ++ writesOf s.trace ∧ RemoveWrites c s.disk v W) :=
+  removeEntry_write_set c v pSect name s hnc
+
+/-- the block-freeing walks of a delete (file header table, extension chain) only read and update library memory -/
+theorem C18_free_blocks_writes_nothing (c : Cfg) (v : Nat) (entry : Blk) (s : St) :
+    Post AnyFault c (freeFileBlocks v entry) s (fun _ s' => s'.disk = s.disk ∧ writesOf s'.trace = writesOf s.trace) := by
+  refine Post.mono _ _ _ _ _ (freeFileBlocks_quiet c v entry s s (Quiet.rfl' s)) ?_
+  intro _ s' hq; exact ⟨hq.1, hq.2.2⟩
 
 end Adf.C18
